@@ -727,7 +727,7 @@ pub fn strategy(prop: &'static str) -> impl Strategy<Value = Case> {
     ];
     let max_size = if prop == "C13" { prop_oneof![2 => Just(1u8), 1 => Just(2u8), 1 => Just(0u8)].boxed() } else if prop == "C15" { Just(0u8).boxed() } else { prop_oneof![4 => Just(0u8), 1 => 1u8..4].boxed() };
     let n = if prop == "C01" { 2..40usize } else { 2..14usize };
-    (1u8..=3, any::<bool>(), max_size, proptest::collection::vec(op, n)).prop_map(|(loops, hook, max_size, ops)| Case { loops, hook, max_size, ops })
+    (prop_oneof![3 => Just(1u8), 1 => 2u8..=3], any::<bool>(), max_size, proptest::collection::vec(op, n)).prop_map(|(loops, hook, max_size, ops)| Case { loops, hook, max_size, ops })
 }
 
 fn rule(prop: &str) -> &'static str {
